@@ -26,7 +26,7 @@ ASSUMPTIONS = ['the RMSE correlation object loaded by the library is the referen
 
 _m = {}
 PROPS = ['CpoR', 'HoRT', 'SoR']
-SCALES = [-3, -1, 0.5, 2, 10]
+SCALES = [-3, -1, 0.5, 2, 10, 1e-5, -1e-7, 1e3]      # incl. very small common factors: x'Mx scales with k*k, the error with |k|
 
 
 def uq_raw(L):
@@ -44,6 +44,11 @@ def quiet(fn, *a):
 
 def core(ctx, lib, basis, M, rmse, keys, counts, extra, Ts, label, perm):
     """keys: basis descriptor names; extra: out-of-basis descriptor names"""
+    gone = [k for k in keys if k not in basis]
+    if gone:
+        # (only saved cases get here: generated keys are drawn from the stored basis itself)
+        ctx.fail('descriptor-no-longer-in-the-stored-basis', '[%s] %s: the uncertainty basis as stored does not list %s (it did when this case was saved)' % (label, keys, gone))
+        return
     x = np.zeros(len(basis))
     for k, c in zip(keys, counts):
         x[basis.index(k)] += c
@@ -148,6 +153,8 @@ def core(ctx, lib, basis, M, rmse, keys, counts, extra, Ts, label, perm):
             for X in PROPS:
                 got = quiet(getattr(est_k, 'get_%s_SE' % X), T)
                 ctx.count()
+                if base[X] == 0.0 and abs(q) <= 1e-9 * float(np.abs(M).max()) * max(1.0, float(x @ x)):
+                    continue            # x'Mx is round-off around zero (x in the null space): nothing to scale
                 if abs(got - abs(k) * base[X]) > 1e-10 * abs(k) * base[X] + 1e-60:   # (same underflow floor as above)
                     ctx.fail('SE-scaling', '[%s] SE_%s(%r * x) = %r, |k| * SE(x) = %r' % (label, X, k, got, abs(k) * base[X]))
                     return
